@@ -131,6 +131,23 @@ func (s *effSummaries) Of(f *ssa.Function) map[string]*EffWitness {
 	if m, ok := s.memo[f]; ok {
 		return m
 	}
+	// a generic origin (or an instantiation over type parameters) is not in the call graph: union of its instantiations
+	if !s.w.All[f] {
+		o := Orig(f)
+		out := map[string]*EffWitness{}
+		for _, inst := range s.w.InstancesDeep(o) {
+			if inst == f || !s.w.All[inst] {
+				continue
+			}
+			for e, wit := range s.Of(inst) {
+				if _, ok := out[e]; !ok {
+					out[e] = wit
+				}
+			}
+		}
+		s.memo[f] = out
+		return out
+	}
 	// collect the reachable set, then propagate to fixpoint (handles recursion)
 	var order []*ssa.Function
 	seen := map[*ssa.Function]bool{}
@@ -203,7 +220,11 @@ func (s *effSummaries) SiteEffects(c *Call) map[string]*EffWitness {
 		out[e] = &EffWitness{e, c.Instr, nil}
 		return out
 	}
-	for _, callee := range s.w.SiteCallees(c.Instr) {
+	callees := s.w.SiteCallees(c.Instr)
+	if len(callees) == 0 && c.Fn != nil {
+		callees = []*ssa.Function{c.Fn}
+	}
+	for _, callee := range callees {
 		if !s.follow(callee) {
 			continue
 		}
